@@ -49,7 +49,20 @@ type c02Call struct {
 	Widths []int `json:"w"`
 	Reset  bool  `json:"reset,omitempty"` // restore the input glyphs before the call
 }
+// c02Pre: another paragraph wrapped first with the SAME LineWrapper (results discarded): whatever the wrapper keeps
+// between paragraphs (rune -> glyph mapping cache, break iterators, storage) must not show in the calls under test.
+// The model starts from the zero wrapper (wrap_history_independent), the implementation from the used one.
+type c02Pre struct {
+	Text   []rune   `json:"text"`
+	Runs   []c02Run `json:"runs"`
+	Width  int      `json:"w"`
+	Policy uint8    `json:"policy,omitempty"`
+	Mode   int      `json:"mode,omitempty"`
+	// SameIter: the prelude and every call hand the wrapper ONE RunIterator object whose content is replaced
+	SameIter bool `json:"same_iter,omitempty"`
+}
 type c02Input struct {
+	Pre       *c02Pre   `json:"pre,omitempty"`
 	Text      []rune    `json:"text"`
 	Runs      []c02Run  `json:"runs"`
 	Truncator c02Run    `json:"truncator"`
@@ -226,6 +239,40 @@ func c02Run_(o *vh.Out, inAny any) {
 
 	var wrapper shaping.LineWrapper
 	var fails []string
+	var shared *c13Iter
+	if in.Pre != nil && in.Pre.SameIter {
+		shared = &c13Iter{}
+	}
+	mkIter := func(rs []shaping.Output) shaping.RunIterator {
+		if shared != nil {
+			shared.runs, shared.idx, shared.saved = rs, 0, 0
+			return shared
+		}
+		return shaping.NewSliceIterator(rs)
+	}
+	if in.Pre != nil {
+		func() {
+			defer func() { recover() }()
+			pruns := make([]shaping.Output, len(in.Pre.Runs))
+			for i, r := range in.Pre.Runs {
+				pruns[i] = c02ToOutput(r)
+			}
+			cfg := shaping.WrapConfig{BreakPolicy: shaping.LineBreakPolicy(in.Pre.Policy)}
+			if len(pruns) > 0 {
+				cfg.Direction = pruns[0].Direction
+			}
+			if in.Pre.Mode == 0 {
+				wrapper.WrapParagraph(cfg, in.Pre.Width, in.Pre.Text, mkIter(pruns))
+			} else {
+				wrapper.Prepare(cfg, in.Pre.Text, mkIter(pruns))
+				for it := 0; it < 2*len(in.Pre.Text)+8; it++ {
+					if _, done := wrapper.WrapNextLine(in.Pre.Width); done {
+						break
+					}
+				}
+			}
+		}()
+	}
 	callTerms := make([]string, 0, len(in.Calls))
 	nLines, maxLines, anyTrunc := 0, 0, false
 	for _, cl := range in.Calls {
@@ -256,7 +303,7 @@ func c02Run_(o *vh.Out, inAny any) {
 				if len(cl.Widths) > 0 {
 					w = cl.Widths[0]
 				}
-				ls, tr := wrapper.WrapParagraph(cfg, w, in.Text, shaping.NewSliceIterator(runs))
+				ls, tr := wrapper.WrapParagraph(cfg, w, in.Text, mkIter(runs))
 				truncated = tr
 				for _, l := range ls {
 					lines = append(lines, arr.lineTerm(l))
@@ -269,7 +316,7 @@ func c02Run_(o *vh.Out, inAny any) {
 					anyTrunc = true
 				}
 			} else {
-				wrapper.Prepare(cfg, in.Text, shaping.NewSliceIterator(runs))
+				wrapper.Prepare(cfg, in.Text, mkIter(runs))
 				ws := cl.Widths
 				limit := 2*len(in.Text) + 8
 				for it := 0; it < limit; it++ {
@@ -867,6 +914,35 @@ func c02Gen(r *vh.Rand, tier string, n int, emit func(any)) {
 			}
 		}
 		in := c02Input{Text: text, Runs: runs, Truncator: c02Truncator(r, paraDir, style)}
+		if style != 0 && len(text) >= 2 && r.Chance(25) {
+			// a paragraph of the same length and run layout but another cluster structure (one glyph per rune), or an
+			// unrelated one, wrapped narrowly so that the wrapper really maps its runs
+			pre := &c02Pre{Policy: uint8(r.Intn(3)), Mode: r.Intn(2), Width: r.Range(1, 40), SameIter: r.Chance(50)}
+			if r.Chance(70) {
+				pre.Text = append([]rune(nil), text...)
+				for i := range pre.Text {
+					if !c02IsSpace(pre.Text[i]) && r.Chance(50) {
+						pre.Text[i] = 'x'
+					}
+				}
+				for _, ru := range runs {
+					pr := c02Run{Dir: ru.Dir, Off: ru.Off, Cnt: ru.Cnt}
+					for k := 0; k < ru.Cnt; k++ {
+						c := ru.Off + k
+						if c02RTL(ru.Dir) {
+							c = ru.Off + ru.Cnt - 1 - k
+						}
+						pr.Glyphs = append(pr.Glyphs, c02Glyph{C: c, RC: 1, GC: 1, Adv: 10 * 64, Ext: 10 * 64})
+						pr.Adv += 10 * 64
+					}
+					pre.Runs = append(pre.Runs, pr)
+				}
+			} else {
+				pre.Text = c02RandomText(r, 10)
+				pre.Runs, _ = c02Structure(r, pre.Text, 1)
+			}
+			in.Pre = pre
+		}
 		total := c02TotalPx(runs)
 		if grid {
 			in.Calls = c02GridCalls(r, paraDir, total, full)
